@@ -355,3 +355,91 @@ def run(ctx, res):
         res.finding("helper|" + f["key"], f["msg"], f["witness"])
     res.floor("access helpers analysed", len(r["helpers"]), 18)
     res.inventory["access_helpers"] = r["helpers"]
+    # (6) no stale copies of guest memory: a value read through the bus that is stored in a field of the emulator other than the
+    # architectural registers, and read again later, is a cache in front of guest memory; guest stores go through Bus::write,
+    # which must then be able to invalidate it (it cannot reach Cpu-side fields at all)
+    stale_copies(facts, res)
+
+
+ARCH_FIELDS = ("er", "pc", "ccr")
+READERS = ("read_abs", "Bus::read", "read_ern", "read_inc_ern", "read_dec_ern", "read_disp")
+
+
+def stale_copies(facts, res):
+    import cfg as cfgmod
+    cg = cfgmod.CallGraph(facts)
+    k_run = facts.body("cpu::Cpu::run")["key"]
+    k_write = facts.body("bus::Bus::write")["key"]
+    reach = [k for k in cg.reachable(k_run) if k in facts.bodies and not k.startswith("bus::") and not k.startswith("elf::") and "ioport" not in k and not k.startswith("modules::")]
+    write_reach = set(cg.reachable(k_write)) | {k_write}
+
+    def locals_in(x, acc):
+        if isinstance(x, dict):
+            if "l" in x and isinstance(x["l"], int):
+                acc.add(x["l"])
+            for v in x.values():
+                locals_in(v, acc)
+        elif isinstance(x, list):
+            for v in x:
+                locals_in(v, acc)
+        return acc
+    copies = {}      # field path -> (body, line)
+    nstores = 0
+    for k in reach:
+        b = facts.bodies[k]
+        # locals derived from a bus read (forward closure through every rvalue kind and through calls such as Try::branch)
+        tainted = set()
+        for bl in b["blocks"]:
+            t = bl["term"]
+            if t["k"] == "call" and any(r in (t["callee"]["path"] or "") for r in READERS) and not t["dest"]["p"]:
+                tainted.add(t["dest"]["l"])
+        if not tainted:
+            continue
+        changed = True
+        while changed:
+            changed = False
+            for bl in b["blocks"]:
+                for s_ in bl["st"]:
+                    if s_["k"] == "assign" and not s_["p"]["p"] and s_["p"]["l"] not in tainted and locals_in(s_["r"], set()) & tainted:
+                        tainted.add(s_["p"]["l"])
+                        changed = True
+                t = bl["term"]
+                if t["k"] == "call" and not t["dest"]["p"] and t["dest"]["l"] not in tainted and locals_in(t["args"], set()) & tainted:
+                    p_ = t["callee"]["path"] or ""
+                    if p_.endswith("Try>::branch") or p_.endswith("::from_residual") or "with_context" in p_ or "Option::<T>::Some" in p_ or p_.startswith("std::convert"):
+                        tainted.add(t["dest"]["l"])
+                        changed = True
+        for bl in b["blocks"]:
+            for s_ in bl["st"]:
+                if s_["k"] != "assign" or not s_["p"]["p"]:
+                    continue
+                if not (locals_in(s_["r"], set()) & tainted):
+                    continue
+                pl = s_["p"]
+                if pl["l"] != 1 or not pl["p"] or pl["p"][0]["k"] != "deref":
+                    continue       # only stores through the receiver (&mut self)
+                fields = [pr["n"] for pr in pl["p"] if pr["k"] == "field"]
+                if not fields or fields[0] in ARCH_FIELDS or fields[0] == "bus":
+                    continue
+                nstores += 1
+                copies.setdefault(".".join(str(f_) for f_ in fields), (k, s_.get("ln")))
+    res.inventory["memory_derived_stores_outside_registers"] = {f_: "%s:%s" % v_ for f_, v_ in copies.items()}
+    for fpath, (k, ln) in sorted(copies.items()):
+        last = fpath.split(".")[-1]
+        # is the field read anywhere (as a source) - otherwise it is write-only bookkeeping
+        read_somewhere = False
+        written_by_bus_write = False
+        for k2, b2 in facts.bodies.items():
+            for bl in b2["blocks"]:
+                for s_ in bl["st"]:
+                    if s_["k"] != "assign":
+                        continue
+                    if '"n": "%s"' % last in __import__("json").dumps(s_["r"]):
+                        read_somewhere = True
+                    if k2 in write_reach and any(pr["k"] == "field" and pr["n"] == last for pr in s_["p"]["p"]):
+                        written_by_bus_write = True
+        okk = (not read_somewhere) or written_by_bus_write
+        res.ob(okk)
+        if not okk:
+            res.finding("stale-copy|%s" % fpath, "%s (line %s) stores a value read from guest memory in the field %s, which is read again later, and nothing reachable from Bus::write "
+                        "updates or invalidates it: after the guest overwrites that memory the emulator keeps using the old value" % (k, ln, fpath))
